@@ -25,7 +25,9 @@ def explore(core, rng, tier, seed, search=False):
     r1 = traceprop.explore(core, ID, cmds, min_events=8, also_judges=("C09conc",))
     # native, truly parallel runs (no controlled scheduler): first uses of never-seen keys and ClearKey racing lock-free lookups of other keys;
     # also under the race detector (a crash such as "concurrent map read and map write" is a failed acquisition of an unrelated key)
-    r2 = traceprop.explore(core, ID + "native", [["kmstress", rng.randrange(1 << 30), 40 if tier == "quick" else 2000]], min_events=8, judge=ID, with_corpus=False,
+    r2 = traceprop.explore(core, ID + "native", [["kmstress", rng.randrange(1 << 30), 40 if tier == "quick" else 2000],
+                                                 # a call with an unhashable key panics; every other key must stay usable afterwards
+                                                 ["kmunhash", rng.randrange(1 << 30), 12 if tier == "quick" else 200]], min_events=8, judge=ID, with_corpus=False,
                            race_cmds=[["kmstress", rng.randrange(1 << 30), 40 if tier == "quick" else 1000]])
     from .C05 import join
     return join(r1, r2)
